@@ -176,6 +176,25 @@ theorem force_in_callers_env (e : Expr) (s0 s : St) (hr : Reach (allocThunk e s0
   obtain ⟨s2, h2, a, _, c, d, e', f', _⟩ := force_body_state lz code s1
   exact ⟨s2, h2, by rw [a, hs], c, by rw [d, hs], by rw [e', hc], f'⟩
 
+/-- **Lookups of a forced expression are the call site's lookups** (partial). `sF`: a state
+in which the body of a force runs — scope stack `K` (the thunk's captured stack), current
+function `f` closed over `K` with parent `c`, the call site's function (that is the state
+`force_in_callers_env` exhibits). `lexLookupAt s lin cur` is `LexicalLookupSymbol` as a
+function of scope stack and current function (`lexLookup s = lexLookupAt s s.linear
+s.curfunc`, by `rfl`). A symbol resolves during the force as it does for the call site
+(scope stack `K`, current function `c`, same tables). Hypotheses NOT discharged here, hence
+`_partial`: `hfuel` — the closure chain of `c` fits the walk's fuel (true when every parent
+is older than its child, which holds for all functions made by `mkFunction`/`createClosure`
+but is not proved as a machine invariant); `hc` — `c` is a closure, or (`c` = main) its own
+captured scopes, the global scope, add nothing to what `K` already shows. -/
+theorem force_lookup_is_callsite_lookup_partial (sF : St) (K : List (Option Nat)) (f c : Nat) (x : String)
+    (hcl : (fnOf sF f).closing = K) (hpar : (fnOf sF f).parent = some c)
+    (hfuel : lookupChain sF x sF.fns.length c = lookupChain sF x (sF.fns.length + 1) c)
+    (hc : (fnOf sF c).parent.isSome = true ∨
+          ((fnOf sF c).parent = none ∧ (lookupUntilFn sF x false K = none → lookupUntilFn sF x false (fnOf sF c).closing = none) ∧ 0 < sF.fns.length)) :
+    lexLookupAt sF K f x = lexLookupAt sF K c x ∧ (∀ s y, lexLookup s y = lexLookupAt s s.linear s.curfunc y) :=
+  ⟨force_lookup_eq_callsite sF K f c x hcl hpar hfuel hc, fun _ _ => rfl⟩
+
 /-! ## (d) strict positions -/
 
 /-- **Exactly once, before the call.** Whatever the other arguments are, the argument at a
@@ -260,8 +279,13 @@ theorem self_tail_call_uses_own_template (isFn : Nat → Bool) (c : Ctx) (h : St
     (hn : (c.tail && h == c.funcname) = true) :
     compile isFn c (.call (.sym h) args) = (do
       let gs ← get
-      let code ← compileCallArgs isFn { c with tail := false } ((c.known.lookup h).bind (fun t => gs.fns[t]?)) 0 args
-      pure (code ++ [.prepareCall h args.length] ++ List.replicate (c.scopes + 1) .removeScope ++ [.goto 0], c.tail)) :=
+      -- (after fix C04-04: only when the number of arguments fits the template; else an ordinary call)
+      if (match (c.known.lookup h).bind (fun t => gs.fns[t]?) with
+          | some fo => if fo.varargs then decide (fo.nargs ≤ args.length) else args.length == fo.nargs
+          | none => true) then do
+        let code ← compileCallArgs isFn { c with tail := false } ((c.known.lookup h).bind (fun t => gs.fns[t]?)) 0 args
+        pure (code ++ [.prepareCall h args.length] ++ List.replicate (c.scopes + 1) .removeScope ++ [.goto 0], c.tail)
+      else pure ([.callExpr (.sym h) args], c.tail)) :=
   compile_self_tail_call isFn c h args hn
 
 theorem self_tail_call_lazy_position (isFn : Nat → Bool) (c : Ctx) (f : FnObj) (i : Nat) (e : Expr) (es : List Expr)
@@ -335,5 +359,14 @@ example : (sThunk.lazies[0]?.map (·.value)) = some none ∧
 -- `substitute` on it leaves the trace empty and the thunk unforced
 example : (runM (builtin 5 "substitute" [.lazy 0]) sThunk).2.trace.length = 0 ∧
           ((runM (builtin 5 "substitute" [.lazy 0]) sThunk).2.lazies[0]?.map (·.value)) = some none := by decide +kernel
+
+-- the hypotheses of `force_lookup_is_callsite_lookup_partial` on the state a top-level force runs in
+def sForce : St := { initSt with fns := initSt.fns ++ [({ name := "lazyArgForce", closing := [some 0], parent := some 0 } : FnObj)],
+                                   curfunc := 2 }
+example : (fnOf sForce 2).closing = [some 0] ∧ (fnOf sForce 2).parent = some 0 ∧
+    lookupChain sForce "trace" sForce.fns.length 0 = lookupChain sForce "trace" (sForce.fns.length + 1) 0 ∧
+    ((fnOf sForce 0).parent = none ∧
+      (lookupUntilFn sForce "trace" false [some 0] = none → lookupUntilFn sForce "trace" false (fnOf sForce 0).closing = none) ∧
+      0 < sForce.fns.length) := by decide +kernel
 
 end ZygoVerif.C16
